@@ -24,7 +24,7 @@ git apply $out/patch.diff
 rc3=0
 if [ $# -gt 0 ]; then
   echo "== existing tests WITH the change: $*"
-  demo=$(ls $wt/$pkg/zz_*_test.go 2>/dev/null); mkdir -p /tmp/mut-$name-hold; for d in $demo; do mv $d /tmp/mut-$name-hold/; done
+  demo=$(cd $out/demo && ls *_test.go 2>/dev/null | sed "s|^|$wt/$pkg/|"); mkdir -p /tmp/mut-$name-hold; for d in $demo; do mv $d /tmp/mut-$name-hold/; done
   go test -count=1 "$@" 2>&1 | grep -v "^ok\|no test files\| INF " | tail -8; rc3=${PIPESTATUS[0]}
   for d in /tmp/mut-$name-hold/*; do [ -f "$d" ] && mv $d $wt/$pkg/; done
 fi
